@@ -129,6 +129,8 @@ func reqOf(ctx context.Context) *Req {
 
 // App is the application model.
 type App struct {
+	// LocalScheme is the scheme of this server's own IRIs ("" = https); see UseScheme.
+	LocalScheme string
 	Store       map[string][]byte   // id -> canonical JSON
 	Inboxes     map[string][]string // inbox IRI -> activity ids, newest first
 	Outboxes    map[string][]string
@@ -193,6 +195,7 @@ func New() *App {
 // Clone deep-copies the persistent state and configuration (not monitors / plumbing).
 func (a *App) Clone() *App {
 	b := *a
+	b.LocalScheme = a.LocalScheme
 	b.Store = make(map[string][]byte, len(a.Store))
 	for k, v := range a.Store {
 		b.Store[k] = v // values are never mutated in place
@@ -566,7 +569,63 @@ func (a *App) Actor(k ActorKind) pub.Actor {
 }
 
 // Handler builds the ActivityStreams GET handler.
-func (a *App) Handler() pub.HandlerFunc { return pub.NewActivityStreamsHandler(DB{a}, Clk{a}) }
+func (a *App) Handler() pub.HandlerFunc {
+	if a.LocalScheme != "" && a.LocalScheme != "https" {
+		return pub.NewActivityStreamsHandlerScheme(DB{a}, Clk{a}, a.LocalScheme)
+	}
+	return pub.NewActivityStreamsHandler(DB{a}, Clk{a})
+}
+
+// LocalPrefix is the prefix of this server's own IRIs.
+func (a *App) LocalPrefix() string {
+	if a.LocalScheme != "" {
+		return a.LocalScheme + "://" + LocalHost
+	}
+	return "https://" + LocalHost
+}
+
+// RewriteLocal maps an https local IRI (or any text containing some) to the server's scheme.
+func (a *App) RewriteLocal(s string) string {
+	if a.LocalScheme == "" || a.LocalScheme == "https" {
+		return s
+	}
+	return strings.ReplaceAll(s, "https://"+LocalHost, a.LocalPrefix())
+}
+
+// UseScheme turns the world into one whose own IRIs use the given scheme: every local IRI in the
+// stored and remote documents, the collection tables and the configuration sets is rewritten. The
+// requests must then come in through the ...Scheme entry points.
+func (a *App) UseScheme(scheme string) {
+	a.LocalScheme = scheme
+	rwB := func(m map[string][]byte) map[string][]byte {
+		o := make(map[string][]byte, len(m))
+		for k, v := range m {
+			o[a.RewriteLocal(k)] = []byte(a.RewriteLocal(string(v)))
+		}
+		return o
+	}
+	rwL := func(m map[string][]string) map[string][]string {
+		o := make(map[string][]string, len(m))
+		for k, v := range m {
+			var l []string
+			for _, x := range v {
+				l = append(l, a.RewriteLocal(x))
+			}
+			o[a.RewriteLocal(k)] = l
+		}
+		return o
+	}
+	rwS := func(m map[string]bool) map[string]bool {
+		o := make(map[string]bool, len(m))
+		for k, v := range m {
+			o[a.RewriteLocal(k)] = v
+		}
+		return o
+	}
+	a.Store, a.Remote = rwB(a.Store), rwB(a.Remote)
+	a.Inboxes, a.Outboxes = rwL(a.Inboxes), rwL(a.Outboxes)
+	a.StoredInbox, a.BlockedSet, a.OwnedExtra, a.NotOwned = rwS(a.StoredInbox), rwS(a.BlockedSet), rwS(a.OwnedExtra), rwS(a.NotOwned)
+}
 
 // Clk is the model clock.
 type Clk struct{ A *App }
